@@ -52,8 +52,8 @@ var propStandins = map[string][]Standin{
 	}},
 	"C04": {{
 		Name: "payload-oracle", Pkg: "internal/index", TestFile: "search_standin_test.go", TestName: "TestC02Standin", OutEnv: "C02_OUT",
-		EnvQuick: []string{"C02_THEN=1", "C02_ANCHORS=1", "C02_ROUNDS=40", "C02_QUERIES=60"}, EnvThorough: []string{"C02_THEN=1", "C02_ANCHORS=1", "C02_ROUNDS=200", "C02_QUERIES=80"},
-		Bound:   "payload filters end to end (expression analysis, shortcut scan, sequence progress across chunks and directions, success/failure accounting, negation): the search-oracle stand-in of C02 (populations of up to 9 stream ids over 1-3 index files, 0-3 payload chunks per stream in either direction out of 10 chunk texts) where half of the payload atoms are THEN chains of 1-3 cdata/sdata elements over 11 expressions (literals, classes, repetition, alternation, fixed and variable length, with literal prefixes and suffixes) plus 8 expressions with assertions (^ $ \\A \\z \\b); compared with a plain left-to-right scan: each element is searched with Go's regexp in its direction's payload from where the previous match ended, and a match ending in chunk i puts the other direction's position after chunk i; also negated and combined with other filters; 40 (quick) / 200 (thorough) populations x 60 / 80 queries. Not generated: variables and captures, data filters without direction inside chains, converter outputs, sub-queries",
+		EnvQuick: []string{"C02_THEN=1", "C02_ANCHORS=1", "C02_VARS=1", "C02_ROUNDS=40", "C02_QUERIES=60"}, EnvThorough: []string{"C02_THEN=1", "C02_ANCHORS=1", "C02_VARS=1", "C02_ROUNDS=200", "C02_QUERIES=80"},
+		Bound:   "payload filters end to end (expression analysis, shortcut scan, sequence progress across chunks and directions, success/failure accounting, negation): the search-oracle stand-in of C02 (populations of up to 9 stream ids over 1-3 index files, 0-3 payload chunks per stream in either direction out of 10 chunk texts) where half of the payload atoms are THEN chains of 1-3 cdata/sdata elements over 11 expressions (literals, classes, repetition, alternation, fixed and variable length, with literal prefixes and suffixes) plus 8 expressions with assertions (^ $ \\A \\z \\b); compared with a plain left-to-right scan: each element is searched with Go's regexp in its direction's payload from where the previous match ended, and a match ending in chunk i puts the other direction's position after chunk i; also negated and combined with other filters; 40 (quick) / 200 (thorough) populations x 60 / 80 queries. a third of the chains bind a named group in the first element and require its text again in a later element (@v@); Not generated: variables from sub-queries, data filters without direction inside chains, converter outputs",
 		Timeout: 10 * time.Minute,
 	}},
 	"C03": {{
